@@ -1,1 +1,373 @@
-/- C17: property theorems (not built yet). -/
+/-
+  C17 — "Date serial numbers form Excel's 1900 calendar": property theorems about the model
+  Pycel/Model/DateTime.lean (calendar lemmas: Lemmas/DateCal.lean, helpers: Lemmas/DateTime.lean).
+  Each theorem quotes the sentence of the property statement it encodes.  All statements are for ALL integers /
+  rationals in the stated range; nothing is proved by enumeration of days.
+-/
+import Pycel.Lemmas.DateTime
+namespace Pycel.DateTime
+open Pycel
+
+/-- the generated constants (read live from pycel.lib.date_time) are the ones the theorems talk about:
+    DATE_ZERO = 1899-12-30, DATE_MAX_INT = 9999-12-31 + 1, the fictitious leap day 60 = 1900-02-29 -/
+theorem C17_consts :
+    zeroOrd = ord 1899 12 30 ∧ maxInt = ord 9999 12 31 - zeroOrd + 1 ∧ maxInt = 2958466 ∧ leapSerial = 60 ∧
+    ((Gen.leapY : Int), (Gen.leapM : Int), (Gen.leapD : Int)) = (1900, 2, 29) ∧ (Gen.dateZeroY : Int) = 1899 := by
+  decide
+
+
+/-- the calendar round trip for EVERY integer day number (no bound): `ord (ymd n) = n` … -/
+theorem C17_ord_ymd (n : Int) : ord (ymd n).1 (ymd n).2.1 (ymd n).2.2 = n := ord_ymd n
+
+/-- … `ymd n` is always a legal (year, month, day) … -/
+theorem C17_ymd_valid (n : Int) : validYmd (ymd n).1 (ymd n).2.1 (ymd n).2.2 := ymd_valid n
+
+/-- … and conversely every legal triple is recovered from its day number (the calendar is a bijection) -/
+theorem C17_ymd_ord (y m d : Int) (h : validYmd y m d) : ymd (ord y m d) = (y, m, d) := ymd_ord y m d h
+
+/-- "day 60 is the fictitious 1900-02-29" -/
+theorem C17_day60 : dateFromInt 60 = (1900, 2, 29) := by decide
+/-- "day 0 is 1900-01-00" -/
+theorem C17_day0 : dateFromInt 0 = (1900, 1, 0) := by decide
+
+/-- "for n > 60 the parts are those of the proleptic Gregorian date 1899-12-30 + n" -/
+theorem C17_gregorian (n : Int) (h : 60 < n) :
+    dateFromInt n = ymd (ord 1899 12 30 + n) ∧
+    validYmd (dateFromInt n).1 (dateFromInt n).2.1 (dateFromInt n).2.2 ∧
+    ord (dateFromInt n).1 (dateFromInt n).2.1 (dateFromInt n).2.2 = ord 1899 12 30 + n := by
+  have hz : zeroOrd = ord 1899 12 30 := by decide
+  have hl : leapSerial = 60 := by decide
+  have e : dateFromInt n = ymd (ord 1899 12 30 + n) := by
+    unfold dateFromInt
+    rw [hl, ← hz]
+    rw [if_neg (by omega), if_neg (by omega), if_neg (by omega)]
+  rw [e]
+  exact ⟨rfl, ymd_valid _, ord_ymd _⟩
+
+/-- days 1 … 59 are 1900-01-01 … 1900-02-28 -/
+theorem C17_days_1_59 (n : Int) (h1 : 1 ≤ n) (h2 : n ≤ 59) :
+    dateFromInt n = (if n ≤ 31 then (1900, 1, n) else (1900, 2, n - 31)) := by
+  have hz : zeroOrd = 693594 := by decide
+  have hl : leapSerial = 60 := by decide
+  unfold dateFromInt
+  rw [hl, if_neg (by omega), if_neg (by omega), if_pos (by omega)]
+  split
+  · have hv : validYmd 1900 1 n := by
+      refine ⟨by omega, by omega, by omega, ?_⟩
+      rw [isLeap_1900]; simp [dim, Gen.daysInMonth]; omega
+    have ho : ord 1900 1 n = zeroOrd + n + 1 := by
+      rw [ord_day]; rw [hz]; have : ord 1900 1 1 = 693596 := by decide
+      omega
+    rw [← ho, ymd_ord _ _ _ hv]
+  · have hv : validYmd 1900 2 (n - 31) := by
+      refine ⟨by omega, by omega, by omega, ?_⟩
+      rw [isLeap_1900]; simp [dim, Gen.daysInMonth]; omega
+    have ho : ord 1900 2 (n - 31) = zeroOrd + n + 1 := by
+      rw [ord_day]; rw [hz]; have : ord 1900 2 1 = 693627 := by decide
+      omega
+    rw [← ho, ymd_ord _ _ _ hv]
+
+/-- "For every serial day n from 0 to 2958465, DATE(YEAR(n), MONTH(n), DAY(n)) = n" -/
+theorem C17_roundtrip (n : Int) (h0 : 0 ≤ n) (h1 : n ≤ 2958465) :
+    ∃ y m d : Int, yearFn (n : Rat) = .num (y : Rat) ∧ monthFn (n : Rat) = .num (m : Rat) ∧
+      dayFn (n : Rat) = .num (d : Rat) ∧ dateFn y m d = .num (n : Rat) := by
+  have hm : maxInt = 2958466 := by decide
+  refine ⟨(dateFromInt n).1, (dateFromInt n).2.1, (dateFromInt n).2.2, ?_, ?_, ?_, ?_⟩
+  · simp [yearFn, serialArg_int n h0 (by omega)]
+  · simp [monthFn, serialArg_int n h0 (by omega)]
+  · simp [dayFn, serialArg_int n h0 (by omega)]
+  · by_cases h60 : 60 < n
+    · obtain ⟨_, hv, ho⟩ := C17_gregorian n h60
+      have hz : zeroOrd = ord 1899 12 30 := by decide
+      rw [← hz] at ho
+      exact dateFn_after hv (before_or_after hv n (by omega) ho) n ho (by omega)
+    · by_cases hn0 : n = 0
+      · subst hn0; decide
+      · by_cases hn60 : n = 60
+        · subst hn60; decide
+        · rw [C17_days_1_59 n (by omega) (by omega)]
+          have hz : zeroOrd = 693594 := by decide
+          have x1 : xlSerial 1900 1 1 = 1 := by decide
+          have x2 : xlSerial 1900 2 1 = 32 := by decide
+          split
+          · show dateFn 1900 1 n = _
+            unfold dateFn
+            rw [if_neg (by omega), dateSerial_std _ _ _ (by omega) (by omega) (by omega), x1, inRange,
+              if_pos (by omega)]
+            congr 2; omega
+          · show dateFn 1900 2 (n - 31) = _
+            unfold dateFn
+            rw [if_neg (by omega), dateSerial_std _ _ _ (by omega) (by omega) (by omega), x2, inRange,
+              if_pos (by omega)]
+            congr 2; omega
+
+
+/-! ### WEEKDAY -/
+
+/-- "WEEKDAY has period 7" -/
+theorem C17_weekday_period (n : Int) (h0 : 0 ≤ n) (h1 : n + 7 < maxInt) :
+    weekdayFn ((n + 7 : Int) : Rat) = weekdayFn (n : Rat) ∧ weekdayOf (n + 7) = weekdayOf n := by
+  have e : weekdayOf (n + 7) = weekdayOf n := by unfold weekdayOf; omega
+  refine ⟨?_, e⟩
+  simp only [weekdayFn, serialArg_int n h0 (by omega), serialArg_int (n + 7) (by omega) h1, e]
+
+theorem C17_weekday_succ (n : Int) : weekdayOf (n + 1) = weekdayOf n % 7 + 1 := by
+  unfold weekdayOf; omega
+
+theorem C17_weekday_range (n : Int) : 1 ≤ weekdayOf n ∧ weekdayOf n ≤ 7 := by
+  unfold weekdayOf; omega
+
+/-! ### DATE carrying -/
+
+/-- "DATE normalises out-of-range … days by carrying": consecutive days, for every integer day -/
+theorem C17_carry_day (y m d : Int) : dateSerial y m (d + 1) = dateSerial y m d + 1 := by
+  rw [dateSerial_eq, dateSerial_eq]; omega
+
+/-- "DATE normalises out-of-range months … by carrying": twelve months are one year, for every integer month
+    (years below 1900 are offsets from 1900 in Excel and in the code: `if year < 1900: year += 1900`) -/
+theorem C17_carry_month (y m d : Int) (hy : 0 ≤ y) :
+    dateSerial y (m + 12) d = dateSerial ((if y < 1900 then y + 1900 else y) + 1) m d := by
+  rw [dateSerial_eq, dateSerial_eq]
+  have hY : ¬ ((if y < 1900 then y + 1900 else y) + 1 < 1900) := by split <;> omega
+  rw [if_neg hY]
+  generalize (if y < 1900 then y + 1900 else y) = Y
+  have : carryMonth Y (m + 12) = carryMonth (Y + 1) m := by
+    unfold carryMonth
+    have : (m + 12 - 1) / 12 = (m - 1) / 12 + 1 := by omega
+    have : (m + 12 - 1) % 12 = (m - 1) % 12 := by omega
+    simp [*]; omega
+  rw [this]
+
+/-! ### ranges and totality -/
+
+/-- "Out-of-range results are #NUM!": serial arguments outside 0 … DATE_MAX_INT-1 -/
+theorem C17_range_error_serial (x : Rat) (h : x < 0 ∨ (maxInt : Rat) ≤ x) :
+    yearFn x = .err .num ∧ monthFn x = .err .num ∧ dayFn x = .err .num ∧ weekdayFn x = .err .num := by
+  have : serialArg x = none := by unfold serialArg; rw [if_pos h]
+  simp [yearFn, monthFn, dayFn, weekdayFn, this]
+
+/-- "Out-of-range results are #NUM!": DATE is a serial in 0 … DATE_MAX_INT-1 or #NUM! -/
+theorem C17_range_error_date (y m d : Int) :
+    (∃ r : Int, 0 ≤ r ∧ r < maxInt ∧ dateFn y m d = .num (r : Rat)) ∨ dateFn y m d = .err .num := by
+  unfold dateFn
+  split
+  · exact Or.inr rfl
+  · unfold inRange
+    split
+    · rename_i h; exact Or.inl ⟨_, h.1, h.2, rfl⟩
+    · exact Or.inr rfl
+
+/-- "Out-of-range results are #NUM!": EDATE/EOMONTH -/
+theorem C17_range_error_inc (n k : Int) (eom : Bool) :
+    (∃ r : Int, 0 ≤ r ∧ r < maxInt ∧ monthsInc n k eom = .num (r : Rat)) ∨ monthsInc n k eom = .err .num := by
+  unfold monthsInc
+  split
+  · exact Or.inr rfl
+  · simp only []
+    split
+    · exact Or.inr rfl
+    · exact C17_range_error_date _ _ _
+
+/-- "YEARFRAC is symmetric in its dates" (every basis, every pair of integer serials) -/
+theorem C17_yearfrac_symm (s e basis : Int) : yearfrac s e basis = yearfrac e s basis := by
+  have c : ∀ a b : Int, (0 ≤ a ∧ a < maxInt ∧ 0 ≤ b ∧ b < maxInt) ↔ (0 ≤ b ∧ b < maxInt ∧ 0 ≤ a ∧ a < maxInt) :=
+    fun a b => ⟨fun h => ⟨h.2.2.1, h.2.2.2, h.1, h.2.1⟩, fun h => ⟨h.2.2.1, h.2.2.2, h.1, h.2.1⟩⟩
+  rcases Int.lt_trichotomy s e with h | h | h
+  · have a : ¬ s > e := by omega
+    have b : e > s := by omega
+    unfold yearfrac
+    simp only [c e s, a, b, ↓reduceIte]
+  · subst h; rfl
+  · have a : s > e := by omega
+    have b : ¬ e > s := by omega
+    unfold yearfrac
+    simp only [c e s, a, b, ↓reduceIte]
+
+/-- "DATE normalises out-of-range months/days by carrying": for every integer month and day the serial is that of
+    the first day of the carried month (same month count, month in 1..12) plus day - 1 … -/
+theorem C17_carry (y m d : Int) :
+    dateSerial y m d = xlSerial (carryMonth (if y < 1900 then y + 1900 else y) m).1
+                                (carryMonth (if y < 1900 then y + 1900 else y) m).2 1 + (d - 1) ∧
+    1 ≤ (carryMonth (if y < 1900 then y + 1900 else y) m).2 ∧
+    (carryMonth (if y < 1900 then y + 1900 else y) m).2 ≤ 12 ∧
+    12 * (carryMonth (if y < 1900 then y + 1900 else y) m).1 + (carryMonth (if y < 1900 then y + 1900 else y) m).2
+      = 12 * (if y < 1900 then y + 1900 else y) + m :=
+  ⟨dateSerial_eq y m d, carryMonth_range _ m⟩
+
+/-- … and the first day of a month has the serial of its proleptic Gregorian ordinal counted from 1899-12-30
+    (from 1900-03 on; 1900-01-01 is 1 and 1900-02-01 is 32 in Excel's numbering) -/
+theorem C17_first_of_month :
+    (∀ y m : Int, validYmd y m 1 → afterFeb1900 y m → xlSerial y m 1 = ord y m 1 - ord 1899 12 30) ∧
+    xlSerial 1900 1 1 = 1 ∧ xlSerial 1900 2 1 = 32 := by
+  refine ⟨?_, by decide, by decide⟩
+  intro y m hv ha
+  have := ord_after hv ha
+  have hz : zeroOrd = ord 1899 12 30 := by decide
+  unfold xlSerial
+  simp only []
+  rw [if_neg (by omega), hz]
+
+/-- the other round trip: DATE of a legal calendar date (from 1900-03-01 on) is the serial whose parts are that date -/
+theorem C17_date_valid (y m d : Int) (hv : validYmd y m d) (ha : afterFeb1900 y m) (hy : y ≤ 9999) :
+    ∃ n : Int, 60 < n ∧ n < maxInt ∧ dateFn y m d = .num (n : Rat) ∧ dateFromInt n = (y, m, d) := by
+  have h61 := ord_after (valid_first hv) ha
+  have hd := ord_day y m d
+  have hd1 := hv.2.2.1
+  have hmax := ord_le_max hv hy
+  refine ⟨ord y m d - zeroOrd, by omega, by omega, ?_, ?_⟩
+  · exact dateFn_after hv ha _ (by omega) (by omega)
+  · have hz : zeroOrd = ord 1899 12 30 := by decide
+    rw [(C17_gregorian _ (by omega)).1, ← hz]
+    have : zeroOrd + (ord y m d - zeroOrd) = ord y m d := by omega
+    rw [this, ymd_ord y m d hv]
+
+/-- DATE of every date of Excel's calendar 1900-01-01 … 9999-12-31 (1900-02-29 included) is the serial whose parts
+    are that date: with `C17_roundtrip` the serials and the calendar dates correspond one to one -/
+theorem C17_date_legal {y m d : Int} (h1 : 1 ≤ m) (h2 : m ≤ 12) (hlo : 1900 ≤ y) (hhi : y ≤ 9999)
+    (hd1 : 1 ≤ d) (hd2 : d ≤ dimXl y m) :
+    ∃ r : Int, 0 ≤ r ∧ r < maxInt ∧ dateFn y m d = .num (r : Rat) ∧ dateFromInt r = (y, m, d) := by
+  by_cases ha : afterFeb1900 y m
+  · have hv : validYmd y m d := by
+      rw [dimXl_eq ha] at hd2
+      exact ⟨h1, h2, hd1, hd2⟩
+    obtain ⟨r, r1, r2, r3, r4⟩ := C17_date_valid _ _ _ hv ha hhi
+    exact ⟨r, by omega, r2, r3, r4⟩
+  · have hy : y = 1900 := by unfold afterFeb1900 at ha; omega
+    have hm : m = 1 ∨ m = 2 := by unfold afterFeb1900 at ha; omega
+    subst hy
+    have hm60 : maxInt = 2958466 := by decide
+    rcases hm with hm | hm
+    · subst hm
+      have hd : d ≤ 31 := by have : dimXl 1900 1 = 31 := by decide
+                             omega
+      refine ⟨d, by omega, by omega, ?_, ?_⟩
+      · have x1 : xlSerial 1900 1 1 = 1 := by decide
+        unfold dateFn
+        rw [if_neg (by omega), dateSerial_std _ _ _ (by omega) (by omega) (by omega), x1, inRange,
+          if_pos (by omega)]
+        congr 2; omega
+      · rw [C17_days_1_59 d (by omega) (by omega), if_pos (by omega)]
+    · subst hm
+      have hd : d ≤ 29 := by have : dimXl 1900 2 = 29 := by decide
+                             omega
+      refine ⟨d + 31, by omega, by omega, ?_, ?_⟩
+      · have x2 : xlSerial 1900 2 1 = 32 := by decide
+        unfold dateFn
+        rw [if_neg (by omega), dateSerial_std _ _ _ (by omega) (by omega) (by omega), x2, inRange,
+          if_pos (by omega)]
+        congr 2; omega
+      · by_cases h29 : d = 29
+        · subst h29; decide
+        · rw [C17_days_1_59 (d + 31) (by omega) (by omega), if_neg (by omega)]
+          congr 2; omega
+
+/-- "Out-of-range results are #NUM!": a start serial outside 0 … DATE_MAX_INT-1, or a shifted month outside
+    1900-01 … 9999-12, gives #NUM! -/
+theorem C17_inc_out_of_range (n k : Int) (eom : Bool)
+    (h : n < 0 ∨ maxInt ≤ n ∨ (carryMonth (dateFromInt n).1 ((dateFromInt n).2.1 + k)).1 < 1900 ∨
+      9999 < (carryMonth (dateFromInt n).1 ((dateFromInt n).2.1 + k)).1) :
+    monthsInc n k eom = .err .num := by
+  have hzy : (Gen.dateZeroY : Int) = 1899 := by decide
+  unfold monthsInc
+  by_cases hn : n < 0 ∨ maxInt ≤ n
+  · rw [if_pos hn]
+  · rw [if_neg hn]
+    simp only []
+    rw [hzy, if_pos (by intro hc; omega)]
+
+/-- "EOMONTH returns a month's last day": for every start serial and every shift whose month lies in
+    1900-01 … 9999-12 the result is the serial whose parts are (year, month, last day) of the shifted month -/
+theorem C17_eomonth (n k : Int) (h0 : 0 ≤ n) (h1 : n < maxInt) (ym : Int × Int)
+    (hym : carryMonth (dateFromInt n).1 ((dateFromInt n).2.1 + k) = ym) (hlo : 1900 ≤ ym.1) (hhi : ym.1 ≤ 9999) :
+    ∃ r : Int, 0 ≤ r ∧ r < maxInt ∧ eomonthFn n k = .num (r : Rat) ∧
+      dateFromInt r = (ym.1, ym.2, dimXl ym.1 ym.2) := by
+  have e := monthsInc_eq n k true h0 h1 ym hym hlo hhi
+  obtain ⟨m1, m2, _⟩ := carryMonth_range (dateFromInt n).1 ((dateFromInt n).2.1 + k)
+  rw [hym] at m1 m2
+  unfold eomonthFn
+  rw [e]
+  exact C17_date_legal m1 m2 hlo hhi (dimXl_pos _ _ m1 m2) (by simp)
+
+/-- "EDATE shifts by whole months": the result is the serial whose parts are the shifted (year, month) and the
+    start day, or the month's last day when the start day does not exist there -/
+theorem C17_edate (n k : Int) (h0 : 1 ≤ n) (h1 : n < maxInt) (ym : Int × Int)
+    (hym : carryMonth (dateFromInt n).1 ((dateFromInt n).2.1 + k) = ym) (hlo : 1900 ≤ ym.1) (hhi : ym.1 ≤ 9999) :
+    ∃ r : Int, 0 ≤ r ∧ r < maxInt ∧ edateFn n k = .num (r : Rat) ∧
+      dateFromInt r = (ym.1, ym.2, min (dateFromInt n).2.2 (dimXl ym.1 ym.2)) := by
+  have e := monthsInc_eq n k false (by omega) h1 ym hym hlo hhi
+  obtain ⟨m1, m2, _⟩ := carryMonth_range (dateFromInt n).1 ((dateFromInt n).2.1 + k)
+  rw [hym] at m1 m2
+  have hd : 1 ≤ (dateFromInt n).2.2 := by
+    by_cases h60 : 60 < n
+    · exact (C17_gregorian n h60).2.1.2.2.1
+    · by_cases hn60 : n = 60
+      · subst hn60; decide
+      · rw [C17_days_1_59 n h0 (by omega)]
+        split <;> simp <;> omega
+  have hp := dimXl_pos ym.1 ym.2 m1 m2
+  unfold edateFn
+  rw [e]
+  simp only [Bool.false_eq_true, ↓reduceIte]
+  exact C17_date_legal m1 m2 hlo hhi (by omega) (by omega)
+
+
+/-! ### HOUR / MINUTE / SECOND -/
+
+/-- "HOUR/MINUTE/SECOND decompose the fraction of a day to the nearest second": on every whole second k of every
+    day D the parts are exactly k div 3600, k div 60 mod 60, k mod 60 -/
+theorem C17_hms (D k : Int) (hD : 0 ≤ D) (hk0 : 0 ≤ k) (hk : k < 86400) :
+    hms ((D : Rat) + (k : Rat) / 86400) = (k / 3600, k / 60 % 60, k % 60) ∧
+    hourFn ((D : Rat) + (k : Rat) / 86400) = .num ((k / 3600 : Int) : Rat) ∧
+    minuteFn ((D : Rat) + (k : Rat) / 86400) = .num ((k / 60 % 60 : Int) : Rat) ∧
+    secondFn ((D : Rat) + (k : Rat) / 86400) = .num ((k % 60 : Int) : Rat) := by
+  have e : hms ((D : Rat) + (k : Rat) / 86400) = (k / 3600, k / 60 % 60, k % 60) := by
+    unfold hms
+    rw [hmsRaw_whole]
+    have a : ¬ (k % 60 = 60) := by omega
+    have b : ¬ (k / 60 % 60 = 60) := by omega
+    simp only [a, b, ↓reduceIte]
+    congr 1; omega
+  have d0 : (0 : Rat) ≤ (D : Rat) := by rw [← Rat.intCast_zero, Rat.intCast_le_intCast]; exact hD
+  have k0 : (0 : Rat) ≤ (k : Rat) := by rw [← Rat.intCast_zero, Rat.intCast_le_intCast]; exact hk0
+  have x0 : ¬ ((D : Rat) + (k : Rat) / 86400 < 0) := by grind
+  refine ⟨e, ?_, ?_, ?_⟩
+  · unfold hourFn; rw [if_neg x0, e]
+  · unfold minuteFn; rw [if_neg x0, e]
+  · unfold secondFn; rw [if_neg x0, e]
+
+
+/-- "to the nearest second": the parts are always a time of day — SECOND and MINUTE never reach 60 -/
+theorem C17_hms_range (x : Rat) :
+    0 ≤ (hms x).1 ∧ (hms x).1 < 24 ∧ 0 ≤ (hms x).2.1 ∧ (hms x).2.1 < 60 ∧ 0 ≤ (hms x).2.2 ∧ (hms x).2.2 < 60 := by
+  have gs := guard_small
+  have gp : 0 < guard := by decide +kernel
+  have f1 := floor_frac ((x + micro) * 24)
+  have mb := floor_bounds ((((x + micro) * 24) - ((((x + micro) * 24).floor : Int) : Rat)) * 60) 0 60
+    (by have e : (((0 : Int)) : Rat) = 0 := rfl
+        rw [e]; grind)
+    (by have e : (((60 : Int)) : Rat) = 60 := rfl
+        rw [e]; grind)
+  have f2 := floor_frac ((((x + micro) * 24) - ((((x + micro) * 24).floor : Int) : Rat)) * 60)
+  have rb := round_bounds (((((x + micro) * 24) - ((((x + micro) * 24).floor : Int) : Rat)) * 60
+      - ((((((x + micro) * 24) - ((((x + micro) * 24).floor : Int) : Rat)) * 60).floor : Int) : Rat)) * 60 - guard)
+    (by grind) (by grind)
+  unfold hms hmsRaw
+  simp only []
+  refine ⟨by omega, by omega, ?_, ?_, ?_, ?_⟩ <;> (repeat' split) <;> omega
+
+
+/-! ### non-vacuity: the hypotheses above are satisfiable by concrete non-trivial instances -/
+
+example : dateFromInt 45000 = (2023, 3, 15) ∧ dateFn 2023 3 15 = .num 45000 := by decide
+example : validYmd 2000 2 29 ∧ afterFeb1900 2000 2 ∧ ord 2000 2 29 = 730179 := by unfold validYmd afterFeb1900; decide
+example : dateFn 2001 3 0 = .num 36950 ∧ dateFromInt 36950 = (2001, 2, 28) := by decide
+example : dateFn 2001 14 (-3) = dateFn 2002 2 (-3) ∧ dateFn 9999 12 32 = .err .num ∧ dateFn 9999 13 0 = .num 2958465 := by decide
+example : eomonthFn 36556 1 = .num 36585 ∧ edateFn 36556 1 = .num 36585 ∧ dateFromInt 36585 = (2000, 2, 29) := by decide
+example : eomonthFn 10 (-12) = .err .num ∧ edateFn 2958465 1 = .err .num ∧ eomonthFn 2958465 0 = .num 2958465 := by decide
+example : carryMonth (dateFromInt 36556).1 ((dateFromInt 36556).2.1 + 1) = (2000, 2) := by decide
+example : weekdayOf 45000 = 4 ∧ weekdayOf 45007 = 4 := by decide
+example : hms (999999 / 1000000) = (0, 0, 0) ∧ hms (1 / 2) = (12, 0, 0) := by decide +kernel
+example : yearfrac 1 400 1 = yearfrac 400 1 1 ∧ yearfrac 1 400 1 = .num (798 / 731) := by decide +kernel
+example : yearFn 2958466 = .err .num ∧ yearFn (-1) = .err .num ∧ yearFn 2958465 = .num 9999 := by decide +kernel
+
+end Pycel.DateTime
